@@ -273,11 +273,15 @@ def _site_case(args):
     defs = ['K = %d' % v, 'K = %s' % hex(v) if v >= 0 else 'K = 0 - %d' % -v]
     if site.startswith('reg-'):
         defs = ['K = x%d' % v, 'K = %d' % v]
-    for d in defs:
+    # third variant: the program ALSO defines a label named K (constants and labels live in separate namespaces; the constant is what
+    # an operand named K means), placed where its offset differs from the constant's value
+    variants = [(d, '') for d in defs] + [(defs[0], 'K:\n')]
+    for d, tail in variants:
         for compress in (False, True):
-            a = impl.assemble_recorded('nop\n' + lit.format(v=v) + '\nnop\n', compress=compress)
-            b = impl.assemble_recorded(d + '\nnop\n' + con + '\nnop\n', compress=compress)
-            out.append((site, v, d, compress, a['status'] if a['status'] != 'ok' else 'ok', a['out'],
+            a = impl.assemble_recorded('nop\n' + lit.format(v=v) + '\nnop\n' + tail.replace('K:', 'KLBL:'), compress=compress)
+            b = impl.assemble_recorded(d + '\nnop\n' + con + '\nnop\n' + tail, compress=compress)
+            desc = d + (' + label K' if tail else '')
+            out.append((site, v, desc, compress, a['status'] if a['status'] != 'ok' else 'ok', a['out'],
                         b['status'] if b['status'] != 'ok' else 'ok', b['out']))
     return out
 
@@ -391,12 +395,24 @@ def c13(run, scratch):
     if r.invariant_violated or not r.completed:
         raise tlc.TlcFailure('LexSpace: the lexical theorem fails on the specification itself: ' + r.out[-2000:])
     run.add_tlc('LexSpace', r)
-    canon, variants = None, []
+    canon, canon2, variants = None, None, []
     for v in r.printed():
         if v and v[0] == 'CANON':
             canon = v[1]
+        elif v and v[0] == 'CANON2':
+            canon2 = v[1]
         elif v and v[0] == 'V':
             variants.append((v[1], v[2], v[3]))
+    # the two reference spellings must agree with each other; the one that assembles is the baseline
+    for p_, (l1, l2) in enumerate(zip(canon, canon2), start=1):
+        r1 = impl.assemble_recorded('\n'.join(l1) + '\n')
+        r2 = impl.assemble_recorded('\n'.join(l2) + '\n')
+        if (r1['status'], r1['out'], r1['labels']) != (r2['status'], r2['out'], r2['labels']):
+            run.violation('SameBytes', {'program': p_, 'line': 0, 'compress': False},
+                          {'imm(reg) spelling': {'source': l1, 'status': str(r1['status'])[:200], 'bytes': r1['out'].hex() if r1['out'] else None},
+                           'reg, imm spelling': {'source': l2, 'status': str(r2['status'])[:200], 'bytes': r2['out'].hex() if r2['out'] else None}})
+            if r1['status'] != 'ok' and r2['status'] == 'ok':
+                canon[p_ - 1] = l2
     if canon is None or len(variants) != r.distinct - 1 - sum(len(p) for p in canon):
         raise tlc.TlcFailure('LexSpace: parsed %d variants of %d states' % (len(variants), r.distinct))
     rng = random.Random(run.seed)
